@@ -140,6 +140,8 @@ class Event:
         return self._value
 
     def trigger(self, event: 'Event') -> None:
+        if self._value is not PENDING:
+            raise RuntimeError(f'{self} has already been triggered')
         self._ok = event._ok
         self._value = event._value
         self.env.schedule(self)
